@@ -246,3 +246,58 @@ H2 = 0x5d543a95414e7f1091d50792876a202cd91de4547085abaa68a205b2e5a7ddfa628f1cb4d
 assert H1 * R_ORDER == Q + 1 - (-BLS_X + 1)      # #E(Fq) = q + 1 - t, t = x + 1
 assert H_EFF_G2 == 3 * (BLS_X ** 2 - 1) * H2
 assert H1 == (BLS_X + 1) ** 2 // 3
+
+
+# ---------------- RFC 9380 6.6.2 simplified SWU (straightforward, affine) for the two isogenous curves
+def sgn0_fq(a):
+    return a % Q & 1
+
+
+def sgn0_fq2(a):
+    s0, z0 = a[0] & 1, a[0] == 0
+    return s0 | (z0 & (a[1] & 1))
+
+
+def sswu_fq(u, A=None, B=None, Z=SSWU_Z1):
+    A = E1P_A if A is None else A
+    B = E1P_B if B is None else B
+    u %= Q
+    tv1 = (Z * Z * pow(u, 4, Q) + Z * u * u) % Q
+    if tv1 == 0:
+        x1 = B * pow(Z * A, -1, Q) % Q
+    else:
+        x1 = (-B) * pow(A, -1, Q) % Q * (1 + pow(tv1, -1, Q)) % Q
+    gx1 = (pow(x1, 3, Q) + A * x1 + B) % Q
+    y1 = fq_sqrt(gx1)
+    if y1 is not None:
+        x, y = x1, y1
+    else:
+        x = Z * u * u % Q * x1 % Q
+        y = fq_sqrt((pow(x, 3, Q) + A * x + B) % Q)
+        assert y is not None
+    if sgn0_fq(u) != sgn0_fq(y):
+        y = -y % Q
+    return (x, y)
+
+
+def sswu_fq2(u, A=E2P_A, B=E2P_B, Z=SSWU_Z2):
+    u2 = f2_sqr(u)
+    zu2 = f2_mul(Z, u2)
+    tv1 = f2_add(f2_sqr(zu2), zu2)
+    if tv1 == F2_ZERO:
+        x1 = f2_mul(B, f2_inv(f2_mul(Z, A)))
+    else:
+        x1 = f2_mul(f2_mul(f2_neg(B), f2_inv(A)), f2_add(F2_ONE, f2_inv(tv1)))
+
+    def g(x):
+        return f2_add(f2_add(f2_mul(f2_sqr(x), x), f2_mul(A, x)), B)
+    y1 = f2_sqrt(g(x1))
+    if y1 is not None:
+        x, y = x1, y1
+    else:
+        x = f2_mul(zu2, x1)
+        y = f2_sqrt(g(x))
+        assert y is not None
+    if sgn0_fq2(u) != sgn0_fq2(y):
+        y = f2_neg(y)
+    return (x, y)
